@@ -26,3 +26,8 @@ Proof. vm_compute. discriminate. Qed.
 (* both results are within one unit in the last place of each other (adjacent bit patterns) *)
 Lemma float_sum_orders_adjacent_lemma : sum_cba - sum_abc = 1.
 Proof. vm_compute. reflexivity. Qed.
+
+(* Not one of the property's obligations (coq/Properties/C17.v): a remark, compiled and gated with
+   the rest, that explains why the implementation is compared with the exact model within a bound. *)
+Theorem float_sum_order_matters : sum_abc <> sum_cba /\ sum_cba - sum_abc = 1.
+Proof. exact (conj float_sum_order_matters_lemma float_sum_orders_adjacent_lemma). Qed.
